@@ -95,6 +95,7 @@ def canary(run, relfile, qual, make_contract, engine_setup=None):
     path = run.src(relfile)
     try:
         eng = Engine(path, timeout_ms=3000)
+        eng.no_last_resort = True          # the canary is expected to stay unproved
         if engine_setup:
             engine_setup(eng)
         c = _mk(make_contract, eng)
